@@ -298,4 +298,79 @@ theorem addsub_imm_describes (f : Form) (wd : GpW) (spd spn : Bool) (opc x : Bit
   · simp only [describes, Form.matchesTemplate, t, hops, matchOps, m0, m1, m2]
     simp
 
+/-! ### bit-field move family: sf at 31, N at 22 (= sf), immr at 16, imms at 10, Rn, Rd -/
+
+theorem bitfield_fields (opc x immr imms rd rn mask value : BitVec 32)
+    (hc : opc &&& 0x003FFFFF#32 = 0#32) (hm : mask &&& 0x003FFFFF#32 = 0#32) (hv : (opc ||| (x <<< 31) ||| (x <<< 22)) &&& mask = value)
+    (hx : x.ult 2#32 = true) (h0 : rd.ult 32#32 = true) (h1 : rn.ult 32#32 = true) (h2 : immr.ult 64#32 = true) (h3 : imms.ult 64#32 = true) :
+    (opc ||| (x <<< 31) ||| (x <<< 22) ||| (immr <<< 16) ||| (imms <<< 10) ||| (rn <<< 5) ||| (rd <<< 0)) &&& mask = value ∧
+    ((opc ||| (x <<< 31) ||| (x <<< 22) ||| (immr <<< 16) ||| (imms <<< 10) ||| (rn <<< 5) ||| (rd <<< 0)) >>> 0) &&& 31#32 = rd ∧
+    ((opc ||| (x <<< 31) ||| (x <<< 22) ||| (immr <<< 16) ||| (imms <<< 10) ||| (rn <<< 5) ||| (rd <<< 0)) >>> 5) &&& 31#32 = rn ∧
+    ((opc ||| (x <<< 31) ||| (x <<< 22) ||| (immr <<< 16) ||| (imms <<< 10) ||| (rn <<< 5) ||| (rd <<< 0)) >>> 16) &&& 63#32 = immr ∧
+    ((opc ||| (x <<< 31) ||| (x <<< 22) ||| (immr <<< 16) ||| (imms <<< 10) ||| (rn <<< 5) ||| (rd <<< 0)) >>> 10) &&& 63#32 = imms := by
+  bv_decide
+
+def isBitfieldForm (f : Form) (wd : GpW) (tailSpecs : List OpSpec) (opcx : BitVec 32) : Bool :=
+  f.ops == [.gp wd "Rd" false, .gp wd "Rn" false] ++ tailSpecs &&
+  f.fields.filter (·.name == "Rd") == [⟨"Rd", [⟨0, 0, 5⟩]⟩] &&
+  f.fields.filter (·.name == "Rn") == [⟨"Rn", [⟨5, 0, 5⟩]⟩] &&
+  f.fields.filter (·.name == "immr") == [⟨"immr", [⟨16, 0, 6⟩]⟩] &&
+  f.fields.filter (·.name == "imms") == [⟨"imms", [⟨10, 0, 6⟩]⟩] &&
+  f.freeFields.isEmpty && !(tailSpecs.any (·.isPartial)) && decide (f.mask < 2 ^ 32) && decide (f.value < 2 ^ 32) &&
+  (BitVec.ofNat 32 f.mask &&& 0x003FFFFF#32 == 0#32) && (opcx &&& BitVec.ofNat 32 f.mask == BitVec.ofNat 32 f.value)
+
+theorem matchOp_immU1 (c : Ctx) (fld : String) (v : BitVec 64) (p : Nat) (rest : List Operand) (hfield : c.get fld = some v.toNat) :
+    matchOp c (.immU fld 1) (.imm v p :: rest) = some rest := by
+  simp [matchOp, hfield]
+
+/-- generic: a form of the bit-field family describes `Rd, Rn, <tail>` when the tail operands are matched by the tail specs
+from the two fields immr / imms -/
+theorem bitfield_describes (f : Form) (wd : GpW) (tailSpecs : List OpSpec) (opc x : BitVec 32) (o0 o1 : Reg) (immr imms : Nat)
+    (tail : List Operand) (pc : BitVec 64)
+    (hf : isBitfieldForm f wd tailSpecs (opc ||| (x <<< 31) ||| (x <<< 22)) = true) (hc : opc &&& 0x003FFFFF#32 = 0#32) (hx : x.ult 2#32 = true)
+    (h0 : gpOk wd false o0) (h1 : gpOk wd false o1) (hr : immr < 64) (hs : imms < 64)
+    (hnn : ∀ t rest, tail = t :: rest → t ≠ .none)
+    (htail : ∀ c : Ctx, c.get "immr" = some immr → c.get "imms" = some imms → matchOps c tailSpecs tail = true) :
+    describes f (.reg o0 :: .reg o1 :: tail) pc
+      (opc ||| (x <<< 31) ||| (x <<< 22) ||| (BitVec.ofNat 32 immr <<< 16) ||| (BitVec.ofNat 32 imms <<< 10) |||
+       (BitVec.ofNat 32 (o1.id % 32) <<< 5) ||| (BitVec.ofNat 32 (o0.id % 32) <<< 0)) = true := by
+  simp only [isBitfieldForm, Bool.and_eq_true, beq_iff_eq, decide_eq_true_eq] at hf
+  obtain ⟨⟨⟨⟨⟨⟨⟨⟨⟨⟨hops, hRd⟩, hRn⟩, hIr⟩, hIs⟩, _hfree⟩, _⟩, hmlt⟩, hvlt⟩, hm⟩, hv⟩ := hf
+  have hu1 : (BitVec.ofNat 32 immr).ult 64#32 = true := by simp [BitVec.ult, BitVec.toNat_ofNat]; omega
+  have hu2 : (BitVec.ofNat 32 imms).ult 64#32 = true := by simp [BitVec.ult, BitVec.toNat_ofNat]; omega
+  obtain ⟨k1, k2, k3, k4, k5⟩ := bitfield_fields opc x (BitVec.ofNat 32 immr) (BitVec.ofNat 32 imms) (BitVec.ofNat 32 (o0.id % 32))
+    (BitVec.ofNat 32 (o1.id % 32)) (BitVec.ofNat 32 f.mask) (BitVec.ofNat 32 f.value) hc hm hv hx (ofNat_mod32_ult _) (ofNat_mod32_ult _) hu1 hu2
+  generalize hw : (opc ||| (x <<< 31) ||| (x <<< 22) ||| (BitVec.ofNat 32 immr <<< 16) ||| (BitVec.ofNat 32 imms <<< 10) |||
+       (BitVec.ofNat 32 (o1.id % 32) <<< 5) ||| (BitVec.ofNat 32 (o0.id % 32) <<< 0)) = w at *
+  have t : w.toNat &&& f.mask = f.value := by
+    rw [toNat_and_mask w f.mask hmlt, k1]; simp [BitVec.toNat_ofNat, Nat.mod_eq_of_lt hvlt]
+  have f0 : (w.toNat >>> 0) % 2 ^ 5 = o0.id % 32 := by rw [toNat_field, k2, ofNat_mod32_toNat]
+  have f5 : (w.toNat >>> 5) % 2 ^ 5 = o1.id % 32 := by rw [toNat_field, k3, ofNat_mod32_toNat]
+  have f16 : (w.toNat >>> 16) % 2 ^ 6 = immr := by
+    rw [toNat_fieldN w 16 6 (by decide), show (BitVec.ofNat 32 (2 ^ 6 - 1)) = 63#32 from rfl, k4]
+    simp [BitVec.toNat_ofNat]; omega
+  have f10 : (w.toNat >>> 10) % 2 ^ 6 = imms := by
+    rw [toNat_fieldN w 10 6 (by decide), show (BitVec.ofNat 32 (2 ^ 6 - 1)) = 63#32 from rfl, k5]
+    simp [BitVec.toNat_ofNat]; omega
+  have g0 := ctx_get_single f.fields w.toNat pc f.name "Rd" 0 hRd
+  have g5 := ctx_get_single f.fields w.toNat pc f.name "Rn" 5 hRn
+  have g16 := ctx_get_one f.fields w.toNat pc f.name "immr" 16 6 hIr
+  have g10 := ctx_get_one f.fields w.toNat pc f.name "imms" 10 6 hIs
+  rw [f0] at g0; rw [f5] at g5; rw [f16] at g16; rw [f10] at g10
+  have m0 := matchOp_gp _ wd "Rd" false o0 (.reg o1 :: tail) g0 h0
+  have m1 := matchOp_gp _ wd "Rn" false o1 tail g5 h1
+  have m2 := htail _ g16 g10
+  have hstrip : (match tail with | .none :: _ => [] | o => o) = tail := by
+    cases tail with
+    | nil => rfl
+    | cons t rest =>
+      have := hnn t rest rfl
+      cases t <;> first | rfl | exact absurd rfl this
+  simp only [describes, Form.matchesTemplate, t, hops, List.cons_append, List.nil_append, matchOps, m0, m1]
+  cases tailSpecs with
+  | nil => simpa [matchOps] using m2
+  | cons s ss =>
+    simp only [matchOps] at m2 ⊢
+    simpa using m2
+
 end AsmjitVerif.C02
